@@ -119,11 +119,46 @@ def check_collectives(rep, prog):
         rv = rank_taint(prog, fn)
         rank_only = set(common.rank_vars_of(fn))
         # R04a (i): rank-conditioned ifs
+        def _ends_with_exit(arm):
+            if arm is None:
+                return False
+            last = arm.c[-1] if arm.k == 'CompoundStmt' and arm.c else arm
+            return last.k in ('ReturnStmt', 'CXXThrowExpr')
+
+        def _tail_signature(node):
+            # the collectives executed after `node` on the way to the end of the function (statements that follow it in the enclosing
+            # compound statements; stops at a loop, whose repetition is not modelled)
+            sig, cur = [], node
+            while cur.parent is not None and cur.parent.k in ('CompoundStmt', 'IfStmt'):
+                par = cur.parent
+                if par.k == 'CompoundStmt':
+                    after = False
+                    for st in par.c:
+                        if st is cur:
+                            after = True
+                            continue
+                        if after:
+                            sig += coll_signature(prog, st, collfns)
+                cur = par
+                if cur is fn.body:
+                    break
+            return sig if cur is fn.body else None
+        exit_ok_conds = set()
         for n in fn.walk():
             if n.k == 'IfStmt' and n.cond is not None and common.mentions_rank(n.cond, rank_only):
                 what = 'both arms of `if (%s)` execute the same sequence of collectives' % n.cond.text(30)
                 s1 = coll_signature(prog, n.then, collfns) if n.then is not None else []
                 s2 = coll_signature(prog, n.els, collfns) if n.els is not None else []
+                if (_ends_with_exit(n.then) or _ends_with_exit(n.els)) and _tail_signature(n) is not None:
+                    # an arm that leaves the function: compare what each group of ranks executes up to its own exit
+                    tail = _tail_signature(n)
+                    f1 = s1 + ([] if _ends_with_exit(n.then) else tail)
+                    f2 = s2 + ([] if _ends_with_exit(n.els) else tail)
+                    if f1 == f2:
+                        rep.ok('R04a', n, fn, what, 'sequence up to the exit of each arm: %s' % (f1 or 'none'), trivial=not f1)
+                        exit_ok_conds.add(n.cond.i)
+                        continue
+                    s1, s2 = f1, f2
                 if s1 == s2:
                     rep.ok('R04a', n, fn, what, 'sequence: %s' % (s1 or 'none'), trivial=not s1)
                 else:
@@ -155,7 +190,8 @@ def check_collectives(rep, prog):
         nexits = 0
         for n in fn.walk():
             if n.k in ('ReturnStmt', 'CXXThrowExpr') or (n.k == 'CallExpr' and n.callee and n.callee.get('noreturn') and not n.callee['name'].startswith('__assert')):
-                bad = [c for (c, pol, _b) in cfg.guards_of(n) if common.mentions_rank(c, rank_only)]
+                bad = [c for (c, pol, _b) in cfg.guards_of(n) if common.mentions_rank(c, rank_only) and c.i not in exit_ok_conds and
+                       not any(c.i == x_.i for k_ in exit_ok_conds for x_ in [fn.nodes[k_]] + list(fn.nodes[k_].walk()))]
                 if bad:
                     # is a collective reachable afterwards on the other ranks?  (any collective in the function counts)
                     rep.violation('R04b', n, fn, 'no exit of a function with collectives depends on the rank',
